@@ -53,10 +53,23 @@ def h(obj) -> str:
 
 
 def scratch_root() -> str:
-    """Private scratch directory on tmpfs (fallback $TMPDIR); callers remove what they create."""
+    """Private scratch directory on tmpfs (fallback $TMPDIR).  The main check process creates it (and removes it at
+    exit, see check.py); forked workers inherit it through $VF_SCRATCH."""
+    d = os.environ.get("VF_SCRATCH")
+    if d and os.path.isdir(d):
+        return d
     for base in ("/dev/shm", os.environ.get("TMPDIR") or "/tmp"):
         if os.path.isdir(base) and os.access(base, os.W_OK):
             d = os.path.join(base, f"vf-{os.getuid()}-{os.getpid()}")
             os.makedirs(d, exist_ok=True)
+            os.environ["VF_SCRATCH"] = d
             return d
     raise SystemExit("HARNESS ERROR: no writable scratch directory")
+
+
+def remove_scratch():
+    import shutil
+
+    d = os.environ.pop("VF_SCRATCH", None)
+    if d and os.path.basename(d).startswith("vf-") and os.path.isdir(d):
+        shutil.rmtree(d, ignore_errors=True)
